@@ -85,11 +85,11 @@ Lemma mstep_read : forall m x y p a l dt,
   mstep m (mkPkt x y p SCPCommands_read a l dt []) =
   match dest_chip m x y with
   | None => (m, RError)
-  | Some (xy, ch) => if l >? m_buffer m then (m, RError) else (m, RData (mread m (ch_cores ch) a l))
+  | Some (xy, ch) => if l >? m_buffer m then (m, RError) else (m, RData (mread m (m_vcpu m xy) (ch_cores ch) a l))
   end.
 Proof. intros. unfold mstep. cbn [q_x q_y q_cmd q_a1 q_a2]. destruct (dest_chip m x y) as [[xy ch]|]; reflexivity. Qed.
 
-Lemma mread_length : forall m cs a l, zlen (mread m cs a l) = Z.max 0 l.
+Lemma mread_length : forall m vb cs a l, zlen (mread m vb cs a l) = Z.max 0 l.
 Proof. intros. unfold mread, zlen. rewrite map_length, seq_length. lia. Qed.
 
 Lemma read_loop_done : forall fuel w x y p a buffer acc,
@@ -101,7 +101,7 @@ Lemma read_inv : forall c w x y p addr len c' w' d,
   ctrl_wf c (w_m w) -> 0 < len <= m_buffer (w_m w) ->
   read c w x y p addr len = Ok (c', w', d) ->
   w_m w' = w_m w /\ c_buffer c' = Some (m_buffer (w_m w)) /\ c_nn c' = c_nn c
-  /\ (exists xy ch, dest_chip (w_m w) x y = Some (xy, ch) /\ d = mread (w_m w) (ch_cores ch) addr len)
+  /\ (exists xy ch, dest_chip (w_m w) x y = Some (xy, ch) /\ d = mread (w_m w) (m_vcpu (w_m w) xy) (ch_cores ch) addr len)
   /\ (exists q, extends w w' (pre_of c ++ [q]) /\ is_read q /\ q_x q = x /\ q_y q = y).
 Proof.
   intros c w x y p addr len c' w' d Hc Hlen H. unfold read in H.
@@ -119,7 +119,7 @@ Proof.
   destruct (dest_chip (w_m w) x y) as [[xy ch]|] eqn:Ed; [|cbn [snd] in Hr; congruence].
   destruct (len >? m_buffer (w_m w)) eqn:Eg; [cbn [snd] in Hr; congruence|].
   cbn [fst snd] in Hr, Hm3. subst r.
-  destruct (zlen (mread (w_m w) (ch_cores ch) addr len) =? len) eqn:Ez; [|discriminate].
+  destruct (zlen (mread (w_m w) (m_vcpu (w_m w) xy) (ch_cores ch) addr len) =? len) eqn:Ez; [|discriminate].
   rewrite Z.sub_diag, read_loop_done in Hl. inversion Hl; subst w2 d2. cbn [app].
   split; [exact Hm3|]. split; [rewrite Hcb, Hb; reflexivity|]. split; [exact Hcn|]. split.
   - exists xy, ch. split; reflexivity.
@@ -136,39 +136,39 @@ Qed.
 Lemma seq4 : seq 0 (Z.to_nat 4) = [0; 1; 2; 3]%nat.
 Proof. reflexivity. Qed.
 
-Lemma mread_sdram_sys : forall m cs, mread m cs (sv_base + sv_sdram_sys_offset) 4 = le32 (m_base m).
+Lemma mread_sdram_sys : forall m vb cs, mread m vb cs (sv_base + sv_sdram_sys_offset) 4 = le32 (m_base m).
 Proof.
-  intros m cs. unfold mread. rewrite seq4. cbn [map]. unfold mem_byte.
+  intros m vb cs. unfold mread. rewrite seq4. cbn [map]. unfold mem_byte.
   change (sv_base + sv_sdram_sys_offset) with 4110450632.
   change (SV_BASE + SV_SDRAM_SYS) with 4110450632.
   cbn [Z.of_nat Z.add Pos.add Pos.succ Z.leb Z.ltb Z.compare Pos.compare Pos.compare_cont andb Pos.of_succ_nat].
   reflexivity.
 Qed.
 
-Lemma mread_vcpu_base : forall m cs, mread m cs (sv_base + sv_vcpu_base_offset) 4 = le32 (m_vcpu m).
+Lemma mread_vcpu_base : forall m vb cs, mread m vb cs (sv_base + sv_vcpu_base_offset) 4 = le32 vb.
 Proof.
-  intros m cs. unfold mread. rewrite seq4. cbn [map]. unfold mem_byte.
+  intros m vb cs. unfold mread. rewrite seq4. cbn [map]. unfold mem_byte.
   change (sv_base + sv_vcpu_base_offset) with 4110450636.
   change (SV_BASE + SV_SDRAM_SYS) with 4110450632. change (SV_BASE + SV_VCPU_BASE) with 4110450636.
   cbn [Z.of_nat Z.add Pos.add Pos.succ Z.leb Z.ltb Z.compare Pos.compare Pos.compare_cont andb Pos.of_succ_nat].
   reflexivity.
 Qed.
 
-Lemma mread_cpu_state : forall m cs p,
-  (m_vcpu m + VCPU_SIZE * N_CORES <= SV_BASE \/ SV_BASE + 256 <= m_vcpu m) -> 0 <= p < 18 ->
-  mread m cs (m_vcpu m + vcpu_size * p + vcpu_cpu_state_offset) vcpu_cpu_state_size =
+Lemma mread_cpu_state : forall m vb cs p,
+  (vb + VCPU_SIZE * N_CORES <= SV_BASE \/ SV_BASE + 256 <= vb) -> 0 <= p < 18 ->
+  mread m vb cs (vb + vcpu_size * p + vcpu_cpu_state_offset) vcpu_cpu_state_size =
   [match nth_error cs (Z.to_nat p) with Some c => cs_state c mod 256 | None => 0 end].
 Proof.
-  intros m cs p Hlay Hp. unfold mread. change (Z.to_nat vcpu_cpu_state_size) with 1%nat. cbn [seq map].
+  intros m vb cs p Hlay Hp. unfold mread. change (Z.to_nat vcpu_cpu_state_size) with 1%nat. cbn [seq map].
   f_equal. unfold mem_byte. unfold VCPU_SIZE, N_CORES, SV_BASE, SV_SDRAM_SYS, SV_VCPU_BASE in *.
   change vcpu_size with 128. change vcpu_cpu_state_offset with 46. cbn [Z.of_nat]. rewrite Z.add_0_r.
-  destruct ((4110450432 + 200 <=? m_vcpu m + 128 * p + 46) && (m_vcpu m + 128 * p + 46 <? 4110450432 + 200 + 4)) eqn:E1.
+  destruct ((4110450432 + 200 <=? vb + 128 * p + 46) && (vb + 128 * p + 46 <? 4110450432 + 200 + 4)) eqn:E1.
   { apply andb_prop in E1. destruct E1 as [A B]. apply Z.leb_le in A. apply Z.ltb_lt in B. lia. }
-  destruct ((4110450432 + 204 <=? m_vcpu m + 128 * p + 46) && (m_vcpu m + 128 * p + 46 <? 4110450432 + 204 + 4)) eqn:E2.
+  destruct ((4110450432 + 204 <=? vb + 128 * p + 46) && (vb + 128 * p + 46 <? 4110450432 + 204 + 4)) eqn:E2.
   { apply andb_prop in E2. destruct E2 as [A B]. apply Z.leb_le in A. apply Z.ltb_lt in B. lia. }
-  destruct ((m_vcpu m <=? m_vcpu m + 128 * p + 46) && (m_vcpu m + 128 * p + 46 <? m_vcpu m + 128 * 18)) eqn:E3.
-  - assert (Hq : (m_vcpu m + 128 * p + 46 - m_vcpu m) / 128 = p) by lia.
-    assert (Hr : (m_vcpu m + 128 * p + 46 - m_vcpu m) mod 128 = 46) by lia.
+  destruct ((vb <=? vb + 128 * p + 46) && (vb + 128 * p + 46 <? vb + 128 * 18)) eqn:E3.
+  - assert (Hq : (vb + 128 * p + 46 - vb) / 128 = p) by lia.
+    assert (Hr : (vb + 128 * p + 46 - vb) mod 128 = 46) by lia.
     rewrite Hq, Hr. destruct (nth_error cs (Z.to_nat p)); reflexivity.
   - apply andb_false_iff in E3. destruct E3 as [A|A]; [apply Z.leb_gt in A|apply Z.ltb_ge in A]; lia.
 Qed.
@@ -178,7 +178,7 @@ Lemma read_sv_word_inv : forall c w off x y c' w' v,
   ctrl_wf c (w_m w) -> 4 <= m_buffer (w_m w) ->
   read_sv_word c w off x y = Ok (c', w', v) ->
   w_m w' = w_m w /\ c_buffer c' = Some (m_buffer (w_m w)) /\ c_nn c' = c_nn c
-  /\ (exists xy ch, dest_chip (w_m w) x y = Some (xy, ch) /\ of_le32 (mread (w_m w) (ch_cores ch) (sv_base + off) 4) = Some v)
+  /\ (exists xy ch, dest_chip (w_m w) x y = Some (xy, ch) /\ of_le32 (mread (w_m w) (m_vcpu (w_m w) xy) (ch_cores ch) (sv_base + off) 4) = Some v)
   /\ (exists q, extends w w' (pre_of c ++ [q]) /\ is_read q /\ q_x q = x /\ q_y q = y).
 Proof.
   intros c w off x y c' w' v Hc Hm H. unfold read_sv_word in H.
